@@ -53,7 +53,7 @@ from ._aggb import eps_of, fail, np64, ok
 from .C16 import krum_scores
 
 RULE = ("aggregator x matrix family (gauss, nonconflict, rowscales over 2 decades, lowrank for the span clause; "
-        "'wellcond' cond <= 30 with m <= n for the pinv/eigh based IMTLG, AlignedMTL, ConFIG) x transformation "
+        "'wellcond' cond <= 30 with m <= n for the pinv/eigh based IMTLG, AlignedMTL, ConFIG; for IMTLG also float32 'wellcond' + one exactly duplicated row) x transformation "
         "(Haar-random orthogonal Q from the QR of a Gaussian matrix with sign fix; column permutation; insertion of 1-3 "
         "zero columns at the start / inside / at the end) + the threshold families: orthogonal on wide (n <= 64) "
         "conflicting matrices with sigma_max around norm_eps and 100 norm_eps under Haar and row-concentrating "
@@ -206,6 +206,20 @@ def cases(tier, seed, focus=None):
             spec = {"kind": "wellcond", "m": 3, "n": rng.choice([4, 6]), "seed": rng.randrange(10**9), "cond": [50.0, 100.0][j % 2],
                     "scale": 1.0, "dtype": "float32"}
             out.append({"clause": "zerocol", "agg": agg, "matrix": spec, "blocks": [[spec["n"], 200000]], "rseed": rng.randrange(10**6)})
+    for agg in [a for a in LAYOUT_AGGS if a["name"] == "IMTLG"]:
+        # float32, two objectives with EXACTLY the same gradient: the Gramian is exactly singular, its computed null singular value
+        # is <= 1e-7 of the largest while the others are >= 1e-2 of it (rank unambiguous: measured gap to the default cut-off of
+        # torch.linalg.pinv >= 4x over 3000 matrices): a pseudo-inverse that keeps the rounding-level value explodes
+        for j in range(60 if thorough else 8):
+            m0 = rng.randint(2, 4)
+            spec = {"kind": "wellcond", "m": m0, "n": rng.randint(m0 + 1, 8), "seed": rng.randrange(10**9), "cond": rng.choice([1.0, 3.0, 10.0]),
+                    "dup": True, "scale": rng.choice([1e-2, 1.0, 1e2]), "dtype": "float32"}
+            if j % 2 == 0:
+                out.append({"clause": "orthogonal", "agg": agg, "matrix": spec, "q": "haar", "qrow": 0,
+                            "qseed": rng.randrange(10**6), "rseed": rng.randrange(10**6)})
+            else:
+                out.append({"clause": "colperm", "agg": agg, "matrix": spec, "perm": rng.sample(range(spec["n"]), spec["n"]),
+                            "rseed": rng.randrange(10**6)})
     for agg in LAYOUT_AGGS:
         for j in range(8 if thorough else 3):  # many zero columns (parameters that influence nothing)
             count = [20000, 3000, 300][j % 3]
@@ -267,6 +281,7 @@ def _rtol(agg_spec, Jn, eps):
             s = np.linalg.svd(Jn / d[:, None], compute_uv=False)
             return base * float(s[0] / s[-1])
         s = np.linalg.svd(Jn, compute_uv=False)
+        s = s[s > 1e-5 * s[0]]  # exactly dependent rows ('dup' family): the condition number of the non-null part
         return base * float(s[0] / s[-1]) ** 2
     # (a NashMTL case whose Gramian is not exact does not occur in the generated cases: no derived tolerance exists)
     return {"UPGrad": 1e-7, "DualProj": 1e-7, "MGDA": 1e-6, "CAGrad": 1e-3}[name]
